@@ -108,15 +108,17 @@ P["C07"] = dict(
     technique="Lean 4 decide-theorems over regenerated tables + no-crash theorem on the scanner model + API fuzz")
 
 P["C08"] = dict(
-    lean_targets=["JSight.Props.C08", "JSight.Tie.CMap"],
-    tgen=[{"cmd": ["tgen-cmap", "{LEAN}/JSight/Generated/CMapUses.lean"]}],
+    lean_targets=["JSight.Props.C08", "JSight.Tie.CMap", "JSight.Tie.Compat"],
+    tgen=[{"cmd": ["tgen-cmap", "{LEAN}/JSight/Generated/CMapUses.lean"]}, {"cmd": ["tgen-compat", "{LEAN}/JSight/Generated/CompatTable.lean"]}],
     obligations=ob("JSight.Props.C08",
         ("Props.C08.C08_verdict_perm", "verdict of every order-insensitive pipeline is the same for every ordering of a duplicate-free rule set"),
         ("Props.C08.C08_lookup_perm", "the constraint map's lookup function does not depend on insertion order")) + ob("JSight.Tie.CMap",
         ("Gen.C08_cmap_uses_reviewed", "every use of the constraint map in the Go source is an order-insensitive query or a reviewed iteration (regenerated table)"),
-        ("Gen.C08_cmap_table_nonempty", "the extractor found the pipeline")),
+        ("Gen.C08_cmap_table_nonempty", "the extractor found the pipeline")) + ob("JSight.Tie.Compat",
+        ("Gen.C08_applicability_table", "the code's rule x JSON-kind compatibility predicate (executed on the current tree) is the statement's applicability table"),
+        ("Gen.C08_applicability_covers", "the regenerated table covers every rule family")),
     runs=[{"cmd": ["c08-rules"]}],
-    partial="order independence is a theorem (+ regenerated tie); the rule-by-rule applicability table (Check iff RulesOK) is compared with a spec written from the statement, not proved",
+    partial="order independence is a theorem (+ regenerated tie); the rule x kind applicability table is a decide-theorem over the table obtained by executing the code; the companion-rule conditions (pairs ordered, exclusive needs bound, or / enum / any / reference exclusivity) are compared with a spec written from the statement, not proved",
     level_text="Proof (partial): any compile/check pipeline that observes a node's constraint map only through Has/Get/Len/Set/Delete, a key-wise Filter and an every-constraint-passes iteration gives the same verdict for every ordering of the rules (theorem, all pipelines, all rule sets); a table of every constraint-map use regenerated from the Go source on every run shows the code stays inside that language. Search: all subsets of rule names x parameters x permutations on the real Check (order independence), and the verdict against a Go spec of the statement.",
     level_note="Trusted: Lean kernel; go/ast extractor; the applicability spec (c08-rules) is calibrated against the unchanged tree by rule-level statements listed in its source; K-C08-ref-type-or known finding by class.",
     technique="Lean 4 theorem (verdict invariant under rule order) + regenerated use table + exploration of the real Check")
